@@ -36,6 +36,9 @@ pub struct TextDoc {
     pub spelling: String,
     /// `Some(reason)`: the document is outside the protocol; observed only
     pub lenient: Option<&'static str>,
+    /// `Some(reason)`: a value is longer than the schema allows; a decoder
+    /// that refuses the library's own output for it is within its rights
+    pub open: Option<&'static str>,
     pub doc: Vec<u8>,
     /// lexical forms applied to attribute values / text nodes (lexical pass only)
     pub lex: Vec<LexUse>,
@@ -52,6 +55,11 @@ struct Replay {
 }
 
 impl TextDoc {
+    /// A document written elsewhere (`c11_long`): every part present, nothing extra.
+    pub fn literal(kind: Kind, variant: &'static str, doc: Vec<u8>) -> Self {
+        TextDoc { kind, variant, absent: Vec::new(), extras: Vec::new(), spelling: String::new(), lenient: None, open: None, doc, lex: Vec::new(), replay: None }
+    }
+
     /// The same document with every value in the plain spelling.
     pub fn render_plain(&self) -> Option<Vec<u8>> {
         let r = self.replay.as_ref()?;
@@ -1161,7 +1169,7 @@ impl<'a> TextGen<'a> {
         let doc = render(&root, &st, rng, &mut Lex::off());
         o.absent.sort();
         o.extras.sort();
-        TextDoc { kind, variant, absent: o.absent, extras: o.extras, spelling: st.describe(), lenient, doc, lex: Vec::new(), replay: None }
+        TextDoc { kind, variant, absent: o.absent, extras: o.extras, spelling: st.describe(), lenient, open: None, doc, lex: Vec::new(), replay: None }
     }
 
     /// A document of the same population with one to three attribute values or
@@ -1211,6 +1219,7 @@ impl<'a> TextGen<'a> {
             extras: o.extras,
             spelling: st.describe(),
             lenient,
+            open: None,
             doc,
             lex: lex.uses,
             replay: Some(Replay { root, style: st, render_seed, lex_seed, targets }),
